@@ -248,6 +248,7 @@ func (e *Exec) dispatch(fn *types.Func, recv *Term, args []Term, call *ast.CallE
 					}
 				}
 			}
+			sig0 := sig
 			fn = conc
 			name = fullName(fn)
 			sig = fn.Type().(*types.Signature)
@@ -271,6 +272,11 @@ func (e *Exec) dispatch(fn *types.Func, recv *Term, args []Term, call *ast.CallE
 			// the interface value is assumed to hold this implementation (recorded as an assumption)
 			e.externs["devirt: values of "+shortName(name)+"'s interface are assumed to be "+rt.String()] = true
 			val := Term{fmt.Sprintf("(a_val %s)", recv.S), rt}
+			if rt.K == KStruct && e.devirtDeclaredPtr(sig0) {
+				// the interface holds *T and the method has a value receiver: the receiver is the pointee
+				pt := e.prog.TypeOf(types.NewPointer(rgt), nil)
+				val = e.deref(Term{fmt.Sprintf("(a_val %s)", recv.S), pt}, c, call)
+			}
 			recv = &val
 			sel = nil
 		}
@@ -346,6 +352,22 @@ func (e *Exec) isDropped(fn *types.Func, recvExpr ast.Expr, c *Ctx) bool {
 		}
 	}
 	return false
+}
+
+// devirtDeclaredPtr: the devirt clause for this interface names a pointer type (*T).
+func (e *Exec) devirtDeclaredPtr(sig *types.Signature) bool {
+	n, ok := types.Unalias(sig.Recv().Type()).(*types.Named)
+	if !ok {
+		return false
+	}
+	tgt, ok := "", false
+	if e.topCon != nil && e.topCon.Devirt != nil {
+		tgt, ok = e.topCon.Devirt[n.Obj().Name()]
+	}
+	if !ok {
+		tgt = e.prog.devirt[n.Obj().Name()]
+	}
+	return strings.HasPrefix(strings.TrimSpace(tgt), "*")
 }
 
 func (e *Exec) devirtTarget(fn *types.Func, sig *types.Signature) *types.Func {
